@@ -39,6 +39,49 @@ Proof. apply plain_lawful. intros. rewrite !max_merge_max. apply Z.max_assoc. Qe
 Lemma sum_lawful : lawful sum_merge (upd_of sum_merge) nomodify nopush (fun z : Z => z) sum_merge noact no_pending.
 Proof. apply plain_lawful. intros. unfold sum_merge. lia. Qed.
 
+(** non-lazy items over any element type *)
+Lemma plain_lawful_gen {T} (mg : T -> T -> T) :
+  (forall a b c, mg a (mg b c) = mg (mg a b) c) ->
+  lawful mg (upd_of mg) nomodify nopush (fun z : T => z) mg noact no_pending.
+Proof.
+  intros Hassoc. constructor; unfold no_pending.
+  - exact Hassoc.
+  - reflexivity.
+  - reflexivity.
+  - reflexivity.
+  - reflexivity.
+  - intros; exact I.
+  - intros; exact I.
+  - intros x a b x' a' b' ms _ E. injection E as <- <- <-. rewrite !acts_noact. repeat split; auto.
+Qed.
+
+(** Min / Max over (key, id): "the right operand wins ties" is associative (rightmost minimum / maximum) *)
+Lemma kmin_merge_assoc a b c : kmin_merge a (kmin_merge b c) = kmin_merge (kmin_merge a b) c.
+Proof.
+  unfold kmin_merge.
+  destruct (fst b <? fst c) eqn:E1; destruct (fst a <? fst b) eqn:E2; rewrite ?E1, ?E2; try reflexivity;
+    destruct (fst a <? fst c) eqn:E3; try reflexivity;
+    rewrite ?Z.ltb_lt, ?Z.ltb_ge in *; lia.
+Qed.
+Lemma kmax_merge_assoc a b c : kmax_merge a (kmax_merge b c) = kmax_merge (kmax_merge a b) c.
+Proof.
+  unfold kmax_merge. rewrite !Z.gtb_ltb.
+  destruct (fst c <? fst b) eqn:E1; destruct (fst b <? fst a) eqn:E2; rewrite ?Z.gtb_ltb, ?E1, ?E2; try reflexivity;
+    destruct (fst c <? fst a) eqn:E3; try reflexivity;
+    rewrite ?Z.ltb_lt, ?Z.ltb_ge in *; lia.
+Qed.
+Lemma minkey_lawful : lawful kmin_merge (upd_of kmin_merge) nomodify nopush (fun z : Z * Z => z) kmin_merge noact no_pending.
+Proof. apply plain_lawful_gen. apply kmin_merge_assoc. Qed.
+Lemma maxkey_lawful : lawful kmax_merge (upd_of kmax_merge) nomodify nopush (fun z : Z * Z => z) kmax_merge noact no_pending.
+Proof. apply plain_lawful_gen. apply kmax_merge_assoc. Qed.
+Lemma sumcat_lawful : lawful cat_merge (upd_of cat_merge) nomodify nopush (fun z : str => z) cat_merge noact no_pending.
+Proof. apply plain_lawful_gen. intros a b c. unfold cat_merge. apply app_assoc. Qed.
+(** the tie rule itself: equal keys -> the right operand, whatever the ids *)
+Lemma kmin_merge_tie a b : fst a = fst b -> kmin_merge a b = b.
+Proof. intros H. unfold kmin_merge. rewrite H, Z.ltb_irrefl. reflexivity. Qed.
+Lemma kmax_merge_tie a b : fst a = fst b -> kmax_merge a b = b.
+Proof. intros H. unfold kmax_merge. rewrite H, Z.gtb_ltb, Z.ltb_irrefl. reflexivity. Qed.
+
 (** ---- MinAdd / MaxAdd ---- *)
 Definition zsum (ms : list Z) : Z := fold_left Z.add ms 0.
 Lemma fold_add_shift ms a : fold_left Z.add ms a = a + zsum ms.
@@ -84,6 +127,51 @@ Proof.
   apply vadd_lawful; auto.
   - intros. rewrite !max_merge_max. apply Z.max_assoc.
   - intros. rewrite !max_merge_max. lia.
+Qed.
+
+(** ---- MinAdd / MaxAdd over (key, id): the modifiers add to the key, the pending tag is the sum of their keys ---- *)
+Definition kva_pending (x : kvadd) (ms : list (Z * Z)) : Prop := fst (kva_md x) = zsum (map fst ms).
+Lemma acts_kadd ms v : acts kadd_act ms v = (fst v + zsum (map fst ms), snd v).
+Proof.
+  unfold acts. revert v; induction ms as [|m ms IH]; intros [a i]; simpl.
+  - unfold zsum. simpl. f_equal. lia.
+  - rewrite IH. unfold kadd_act, k_add, zsum. simpl. f_equal. rewrite (fold_add_shift (map fst ms) (fst m)). unfold zsum. lia.
+Qed.
+Lemma kvadd_lawful (mg : kvadd -> kvadd -> kvadd) (vm : Z * Z -> Z * Z -> Z * Z) :
+  (forall a b c, vm a (vm b c) = vm (vm a b) c) ->
+  (forall a b, kva_v (mg a b) = vm (kva_v a) (kva_v b)) ->
+  (forall a b, kva_md (mg a b) = (0, 0)) ->
+  (forall m a b, k_add (vm a b) m = vm (k_add a m) (k_add b m)) ->
+  lawful mg (upd_of mg) kva_modify kva_push kva_v vm kadd_act kva_pending.
+Proof.
+  intros Hassoc Hv Hmd Hdist. constructor.
+  - exact Hassoc.
+  - exact Hv.
+  - intros x a b. apply Hv.
+  - reflexivity.
+  - intros m a b. unfold kadd_act. apply Hdist.
+  - intros x a b. unfold kva_pending, upd_of. rewrite Hmd. reflexivity.
+  - intros a ms m H. unfold kva_pending in *. simpl. rewrite map_app, zsum_app, H. unfold zsum. simpl. lia.
+  - intros x a b x' a' b' ms Hp E. injection E as <- <- <-. unfold kva_pending in *. simpl.
+    rewrite !acts_kadd, <- Hp. repeat split; auto.
+    + intros ps ->. rewrite map_app, zsum_app, Hp. reflexivity.
+    + intros ps ->. rewrite map_app, zsum_app, Hp. reflexivity.
+Qed.
+Lemma kminaddkey_lawful : lawful kminadd_merge (upd_of kminadd_merge) kva_modify kva_push kva_v kmin_merge kadd_act kva_pending.
+Proof.
+  apply kvadd_lawful; auto.
+  - apply kmin_merge_assoc.
+  - intros m a b. unfold kmin_merge, k_add. simpl.
+    destruct (fst a <? fst b) eqn:E1; destruct (fst a + fst m <? fst b + fst m) eqn:E2; try reflexivity;
+      rewrite ?Z.ltb_lt, ?Z.ltb_ge in *; lia.
+Qed.
+Lemma kmaxaddkey_lawful : lawful kmaxadd_merge (upd_of kmaxadd_merge) kva_modify kva_push kva_v kmax_merge kadd_act kva_pending.
+Proof.
+  apply kvadd_lawful; auto.
+  - apply kmax_merge_assoc.
+  - intros m a b. unfold kmax_merge, k_add. simpl. rewrite !Z.gtb_ltb.
+    destruct (fst b <? fst a) eqn:E1; destruct (fst b + fst m <? fst a + fst m) eqn:E2; try reflexivity;
+      rewrite ?Z.ltb_lt, ?Z.ltb_ge in *; lia.
 Qed.
 
 (** ---- SumAdd ---- *)
